@@ -5,6 +5,7 @@ package diff
 
 import (
 	"bytes"
+	"fmt"
 	"time"
 
 	"github.com/go-logr/logr"
@@ -88,7 +89,30 @@ func DiffTables(db1, db2 objects.Store, tbl1, tbl2 *objects.Table, tblIdx1, tblI
 	return d.diffTables()
 }
 
+// validateTableIndex makes sure a table index has one entry of the right width per block
+func validateTableIndex(tbl *objects.Table, tblIdx [][]string) error {
+	if len(tblIdx) != len(tbl.Blocks) {
+		return fmt.Errorf("table index has %d entries, table %x has %d blocks", len(tblIdx), tbl.Sum, len(tbl.Blocks))
+	}
+	width := len(tbl.PK)
+	if width == 0 {
+		width = len(tbl.Columns)
+	}
+	for i, row := range tblIdx {
+		if len(row) != width {
+			return fmt.Errorf("table index entry %d of table %x has %d values instead of %d", i, tbl.Sum, len(row), width)
+		}
+	}
+	return nil
+}
+
 func (d *Differ) diffRows(diffChan chan<- *objects.Diff, pt *progress.SingleTracker, colsEqual bool) error {
+	if err := validateTableIndex(d.tbl1, d.tblIdx1); err != nil {
+		return err
+	}
+	if err := validateTableIndex(d.tbl2, d.tblIdx2); err != nil {
+		return err
+	}
 	pt.SetTotal(int64(d.tbl1.RowsCount + d.tbl2.RowsCount))
 	var current int64
 	err := iterateAndMatch(d.db1, d.db2, d.tbl1, d.tbl2, d.tblIdx1, d.tblIdx2, d.logger, func(pk, row1, row2 []byte, off1, off2 uint32) {
